@@ -298,7 +298,7 @@ def unique(ctx):
     from .cli import run_jawk, show
     from . import refpipe
     for c in fam.candidates:
-        rows = [1, 2, 1, {'a': 1}, 2, {'a': 1}, [1], [1], 'x', 'x', None, None, 3]
+        rows = [1, 2, 1, {'a': 1}, 2, {'a': 1}, [1], [1], 'x', 'x', None, None, 3, {'a': {'b': 1}}, {'a': {}, 'b': 1}, {'a': [1, 2]}, {'a': [1], 'b': 2}, [[1], 2], [[1, 2]], 1.5, '1.5']
         r = run_jawk(ctx, ['--unique', '--style', 'consise'], ' '.join(json.dumps(x) for x in rows).encode())
         exp = refpipe.pipeline(rows, unique=True)
         try: got = [json.loads(l) for l in show(r['stdout']).splitlines() if l.strip()]
@@ -338,7 +338,8 @@ def key_fn(ctx):
     run.absorb(ex)
     from .cli import run_jawk, show
     DEMOS = [(['--unique', '--select', '.a=a'], '{"a":null} {} {"a":null} {}', 2), (['--unique', '--select', '.a=a'], '{"a":1,"b":2} {"a":1,"b":3} {"a":2}', 2),
-             (['--unique'], '1 1 2 [1] [1] {"a":null} {}', 5), (['--unique', '--select', '.a=a', '--select', '.b=b'], '{"a":1} {"b":1} {"a":1} {"a":null} {"a":null,"b":null} {}', 5)]
+             (['--unique'], '1 1 2 [1] [1] {"a":null} {}', 5), (['--unique', '--select', '.a=a'], '{"x":1} {"x":2} {"x":3}', 1),
+             (['--unique', '--select', '.a=a', '--select', '.b=b'], '{"x":1} {"y":2}', 1), (['--unique', '--select', '.a=a', '--select', '.b=b'], '{"a":1} {"b":1} {"a":1} {"a":null} {"a":null,"b":null} {}', 5)]
     for c_ in fam.candidates:
         c_.status = 'unit'
         for argv, stdin, nrows in DEMOS:
